@@ -284,19 +284,28 @@ class Segment:
         exp = rm.cj(rm.flat(op["ref"]))
         bad = self.bridge.wellformed(obj)
         if entry["flat"] != exp or bad:
-            if self.lib_ops == 0:
-                # nothing of the library has run yet in this interpreter: my builder is wrong
-                raise RuntimeError("harness: built model does not observe as its reference: "
-                                   "%s vs %s %r" % (entry["flat"][:300], exp[:300], bad[:2]))
-            # a model built through the public constructors no longer comes out as specified:
-            # something executed earlier in this interpreter changed shared state (a default
-            # object, a class attribute, a module-level cache)
             diffs = rm.compare(op["ref"], self.bridge.observe(obj), ALL_FACETS)
-            self.fail(self.job.get("prop") or "C19", "frame.fresh_model_contaminated",
-                      self.last_lib_op or "NEW",
-                      "a model freshly built through the public constructors differs from its "
-                      "specification after earlier operations in this process: %r %r" % (
-                          diffs[:2], bad[:1]), rm.case_tags(op["ref"]) + ["hist.frame"])
+            if self.lib_ops == 0:
+                # Nothing but the model classes has run: Feature / Relation / Constraint /
+                # FeatureModel built through their public constructors and add_* methods do not
+                # hold what they were given.  Every property here is stated over such models
+                # (and every reader builds its result the same way), so it is reported as a
+                # violation of the property under check.  (On the unchanged tree this would be
+                # a bug of my builder and show in every run.)
+                self.fail(self.job.get("prop") or "C19", "frame.constructor_contract",
+                          "models.feature_model",
+                          "a model built through the public constructors does not hold what it "
+                          "was given: %r %r" % (diffs[:2], bad[:1]),
+                          rm.case_tags(op["ref"]) + ["hist.frame"])
+            else:
+                # a model built through the public constructors no longer comes out as
+                # specified: something executed earlier in this interpreter changed shared
+                # state (a default object, a class attribute, a module-level cache)
+                self.fail(self.job.get("prop") or "C19", "frame.fresh_model_contaminated",
+                          self.last_lib_op or "NEW",
+                          "a model freshly built through the public constructors differs from "
+                          "its specification after earlier operations in this process: %r %r" % (
+                              diffs[:2], bad[:1]), rm.case_tags(op["ref"]) + ["hist.frame"])
             entry["tainted"] = True
         rec["outcome"] = "ok"
 
